@@ -16,7 +16,7 @@ CONSTANTS
   YieldK <- K_None
   TerminalQueries = TRUE
   AllowEmpty = FALSE
-  AddForms <- F_Hist
+  AddForms <- F_HistQ
 
 INVARIANT WorkspaceWellFormed
 INVARIANT SplitPartitions
